@@ -507,6 +507,13 @@ def mk_out(ctx, spec, shape, dt):
         return None, None
     if spec in ('ndarray', 'nd0'):
         return pre.copy(), pre.copy()
+    if spec == 'nd_wide':              # plain ndarray of a wider dtype than the result: with a
+        # ``dtype=`` keyword writable_array computes into a converted copy and must write back
+        w = WIDER.get(np.dtype(dt).name)
+        if w is None:
+            raise _NoOut()
+        pre = prefill(w, shape)
+        return pre.copy(), pre.copy()
     if spec == 'nd_nc':                # non-contiguous view
         if len(shape) == 0:
             raise _NoOut()
@@ -714,11 +721,19 @@ def run_case(ctx, uf, method, ops, outspec, kw, ref0=None, extra_tags=()):
                     o_outs.append(o_args[0])
                     r_outs.append(r_args[0])
                 else:
-                    if s != 'none' and np.ndim(r0) == 0 and s not in ('ndarray', 'nd0'):
+                    if s != 'none' and np.ndim(r0) == 0 and s not in ('ndarray', 'nd0', 'nd_own',
+                                                                      'nd_wide'):
                         raise _NoOut()
-                    if s == 'elem_own' and np.asarray(r0).dtype == np.dtype(ctx.dt):
-                        raise _NoOut()      # same as 'elem'
-                    oo, ro = mk_out(ctx, s, np.shape(r0), np.asarray(r0).dtype)
+                    if s in ('elem_own', 'nd_own') and \
+                            np.asarray(r0).dtype == np.dtype(ctx.dt):
+                        raise _NoOut()      # same as 'elem' / 'ndarray'
+                    if s in ('nd_own', 'nd_wide') and 'dtype' not in kw:
+                        raise _NoOut()      # only of interest with the dtype keyword
+                    if s == 'nd_own':
+                        # plain ndarray of the element's dtype, not of the keyword's
+                        oo, ro = prefill(ctx.dt, np.shape(r0)), prefill(ctx.dt, np.shape(r0))
+                    else:
+                        oo, ro = mk_out(ctx, s, np.shape(r0), np.asarray(r0).dtype)
                     o_outs.append(oo)
                     r_outs.append(ro)
         except _NoOut:
@@ -847,7 +862,7 @@ def sec_call(ctx, uf, full):
         outs = ['none', 'elem', 'ndarray', 'alias']
         if ctx.family == 'discr':
             outs.append('tensor')
-        outs_kw = ['none', 'elem', 'ndarray', 'elem_own']
+        outs_kw = ['none', 'elem', 'ndarray', 'elem_own', 'nd_own', 'nd_wide']
         outs_full = ['elem_w', 'nd_nc', 'nd_F']
     else:
         outs = [('none', 'none'), ('elem', 'elem'), ('none', 'elem'), ('elem', 'none'),
@@ -861,7 +876,7 @@ def sec_call(ctx, uf, full):
         # code runs; ProductSpaceElement documents only __array__ / __array_wrap__.  Counted as
         # unspecified, not judged.
         def _ok(o):
-            return all(s in ('none', 'ndarray', 'nd_nc', 'nd_F')
+            return all(s in ('none', 'ndarray', 'nd_nc', 'nd_F', 'nd_own', 'nd_wide')
                        for s in ((o,) if isinstance(o, str) else o))
         n0 = len(outs) + len(outs_kw) + len(outs_full)
         outs = [o for o in outs if _ok(o)]
@@ -930,6 +945,7 @@ def sec_reduce(ctx, uf, full):
         ctx.skipped += 1
     else:
         outs = ['none', 'elem', 'ndarray'] + (['tensor'] if ctx.family == 'discr' else [])
+    outs = outs + ['nd_own', 'nd_wide']
     extra = [{}]
     extra += _dtype_kws(ctx, full)
     for ax in _axis_alphabet(ctx.ndim, full):
@@ -969,7 +985,7 @@ def sec_accumulate(ctx, uf, full):
         outs = ['none', 'ndarray']
         ctx.skipped += 1
     else:
-        outs = ['none', 'elem', 'ndarray', 'alias', 'elem_own'] + (
+        outs = ['none', 'elem', 'ndarray', 'alias', 'elem_own', 'nd_own', 'nd_wide'] + (
             ['tensor'] if ctx.family == 'discr' else [])
         if full:
             outs += ['elem_w', 'nd_nc']
@@ -1009,7 +1025,8 @@ def sec_outer(ctx, uf, full):
     if full:
         seconds.append(('E2', 'b1', (2, 2), '', dt))
         seconds.append(('E2', 'b1', (2,), '', DTYPE_KW[dt][0]))
-    outs = ['none', 'ndarray', 'elem'] + (['tensor'] if ctx.family == 'discr' else [])
+    outs = ['none', 'ndarray', 'elem', 'nd_own', 'nd_wide'] + (
+        ['tensor'] if ctx.family == 'discr' else [])
     for sec in seconds:
         for order in (0, 1):
             if sec[0] == '=':
@@ -1083,6 +1100,7 @@ def sec_reduceat(ctx, uf, full):
         ctx.skipped += 1
     else:
         outs = ['none', 'elem', 'ndarray']
+    outs = outs + ['nd_own', 'nd_wide']
     for ax in [{}] + [{'axis': a} for a in range(ctx.ndim)] + [{'axis': -1}]:
         n = ctx.shape[ax.get('axis', 0)]
         cands = [[0], [0, 1], [1, 0], [0, 2, 1], [0, 1, 2], [2, 0, 1, 0]]
